@@ -109,7 +109,9 @@ func (bc *Bytecode) MarshalBinary() (data []byte, err error) {
 
 // UnmarshalBinary implements encoding.BinaryUnmarshaler
 // Do not use this method if builtin modules are used, instead use Decode method.
-func (bc *Bytecode) UnmarshalBinary(data []byte) error {
+func (bc *Bytecode) UnmarshalBinary(data []byte) (err error) {
+	defer recoverDecodeError(&err)
+
 	if len(data) < 6 {
 		return &ugo.Error{
 			Name:    "encoder.Bytecode.UnmarshalBinary",
@@ -231,9 +233,15 @@ func decodeBytecodeV2(bc *Bytecode, r *bytes.Buffer) error {
 				return err
 			}
 
-			sz := obj.(ugo.Int)
+			sz, ok := obj.(ugo.Int)
+			if !ok {
+				return errors.New("invalid file set size")
+			}
 			if sz <= 0 {
 				continue
+			}
+			if err = checkDecodeLen(int64(sz), r); err != nil {
+				return err
 			}
 
 			data := make([]byte, sz)
@@ -252,21 +260,33 @@ func decodeBytecodeV2(bc *Bytecode, r *bytes.Buffer) error {
 				return err
 			}
 
-			bc.Main = f.(*ugo.CompiledFunction)
+			main, ok := f.(*ugo.CompiledFunction)
+			if !ok {
+				return errors.New("invalid main function")
+			}
+			bc.Main = main
 		case 2:
 			obj, err := DecodeObject(r)
 			if err != nil {
 				return err
 			}
 
-			bc.Constants = obj.(ugo.Array)
+			constants, ok := obj.(ugo.Array)
+			if !ok {
+				return errors.New("invalid constants")
+			}
+			bc.Constants = constants
 		case 3:
 			num, err := DecodeObject(r)
 			if err != nil {
 				return err
 			}
 
-			bc.NumModules = int(num.(ugo.Int))
+			n, ok := num.(ugo.Int)
+			if !ok {
+				return errors.New("invalid number of modules")
+			}
+			bc.NumModules = int(n)
 		default:
 			return errors.New("unknown field:" + strconv.Itoa(int(field)))
 		}
@@ -274,7 +294,9 @@ func decodeBytecodeV2(bc *Bytecode, r *bytes.Buffer) error {
 }
 
 // DecodeObject decodes and returns Object from a io.Reader which is encoded with MarshalBinary.
-func DecodeObject(r io.Reader) (ugo.Object, error) {
+func DecodeObject(r io.Reader) (obj ugo.Object, err error) {
+	defer recoverDecodeError(&err)
+
 	btype, err := readByteFrom(r)
 	if err != nil {
 		return nil, err
@@ -349,6 +371,10 @@ func DecodeObject(r io.Reader) (ugo.Object, error) {
 
 		if value < 0 {
 			return nil, errors.New("negative value")
+		}
+
+		if err = checkDecodeLen(value, r); err != nil {
+			return nil, err
 		}
 
 		n := 1 + len(readBytes)
@@ -779,6 +805,10 @@ func (o *Array) UnmarshalBinary(data []byte) error {
 		return err
 	}
 
+	if err = checkDecodeLen(length, rd); err != nil {
+		return err
+	}
+
 	arr := make([]ugo.Object, 0, int(length))
 	for rd.Len() > 0 {
 		o, err := DecodeObject(rd)
@@ -1027,6 +1057,10 @@ func (o *CompiledFunction) UnmarshalBinary(data []byte) error {
 				return err
 			}
 
+			if err = checkDecodeLen(length, rd); err != nil {
+				return err
+			}
+
 			sz := int(length / 2)
 			// always put size to the map to decode faster
 			o.SourceMap = make(map[int]int, sz)
@@ -1195,6 +1229,10 @@ func (sf *SourceFile) UnmarshalBinary(data []byte) error {
 		return err
 	}
 
+	if err = checkDecodeLen(v, rd); err != nil {
+		return err
+	}
+
 	length := int(v)
 
 	lines := make([]int, length)
@@ -1257,6 +1295,10 @@ func (sfs *SourceFileSet) UnmarshalBinary(data []byte) error {
 		return err
 	}
 
+	if err = checkDecodeLen(v, rd); err != nil {
+		return err
+	}
+
 	length := int(v)
 	files := make([]*parser.SourceFile, length)
 
@@ -1265,6 +1307,10 @@ func (sfs *SourceFileSet) UnmarshalBinary(data []byte) error {
 		if err != nil {
 			return err
 		}
+		if err = checkDecodeLen(v, rd); err != nil {
+			return err
+		}
+
 		data := make([]byte, v)
 		if _, err = io.ReadFull(rd, data); err != nil {
 			return err
@@ -1281,6 +1327,26 @@ func (sfs *SourceFileSet) UnmarshalBinary(data []byte) error {
 	}
 
 	sfs.Files = files
+	return nil
+}
+
+// recoverDecodeError converts a panic raised while decoding malformed data to
+// an error.
+func recoverDecodeError(err *error) {
+	if r := recover(); r != nil {
+		*err = fmt.Errorf("decode error: invalid data: %v", r)
+	}
+}
+
+// checkDecodeLen reports an error if n elements, each taking at least one
+// byte, cannot be present in the remaining bytes of r.
+func checkDecodeLen(n int64, r io.Reader) error {
+	if n < 0 {
+		return errors.New("decode error: negative length")
+	}
+	if lr, ok := r.(interface{ Len() int }); ok && n > int64(lr.Len()) {
+		return io.ErrUnexpectedEOF
+	}
 	return nil
 }
 
